@@ -593,7 +593,7 @@ fn take_log(env: &Env) -> String {
     }
 }
 
-const OP_TIMEOUT: Duration = Duration::from_secs(10);
+const OP_TIMEOUT: Duration = Duration::from_secs(30);
 /// after this many timed-out ops the executor part of the run is abandoned (a code change that
 /// makes the executor hang must not stall the check; every abandoned op is a disagreement)
 const MAX_TIMEOUTS: u32 = 4;
